@@ -75,6 +75,11 @@ fn with_part(mut chk: evid::Check, mut agg: par::Agg, mode: &str, tier: &str, se
 #[cfg(not(feature = "driver_only"))]
 fn run(prop: &str, tier: &str, seed: u64) -> i32 {
     match prop {
+        "C11" => {
+            let (mut chk, agg) = m_rules::run_parts(prop, tier, seed);
+            chk.rule.push_str(" || Command level: `position ...; show` on the real binary for generated games (half of them cut where the side to move is in check), then the printed FEN is sent back with `position fen <text>; show`: both displays must describe the oracle's position (four fields and hash) and the re-import must be accepted.");
+            with_part(chk, agg, "C11cmd", tier, seed, &[("command-level re-imports", "command_level_reimports", 500), ("command-level exports with the mover in check", "command_level_exports_with_the_mover_in_check", 100)])
+        }
         p if WALK.contains(&p) => m_rules::run(p, tier, seed),
         "C12" => {
             let (mut chk, agg) = m_rules::run_parts(prop, tier, seed);
@@ -84,8 +89,8 @@ fn run(prop: &str, tier: &str, seed: u64) -> i32 {
         }
         "C20" => {
             let (mut chk, agg) = m_rules::run_parts(prop, tier, seed);
-            chk.rule.push_str(" || Binary level: `position (fen F|startpos) [moves ...]; show` for generated games, bare positions and short records, half of them sent right after another `position` command (bare FEN, bare start or another game) on the same process; output parsed the same way.");
-            with_part(chk, agg, "C20show", tier, seed, &[("shows checked through the binary", "shows_checked", 200), ("shows sent right after another position command", "shows_after_another_position_command", 50), ("shows in startpos form", "shows_in_startpos_form", 20)])
+            chk.rule.push_str(" || Binary level: `position (fen F|startpos) [moves ...]; show` for generated games, bare positions and short records, half of them sent right after another `position` command (bare FEN, bare start or another game) on the same process, every fifth list ending in a move the generator offers but the rules forbid (refused: it must leave no trace); output parsed the same way.");
+            with_part(chk, agg, "C20show", tier, seed, &[("shows checked through the binary", "shows_checked", 200), ("shows sent right after another position command", "shows_after_another_position_command", 50), ("shows in startpos form", "shows_in_startpos_form", 20), ("shows after a refused move at the end of the list", "shows_after_a_refused_move", 20)])
         }
         "C03" => m_undo::run(tier, seed),
         "C06" | "C18" => {
@@ -139,6 +144,7 @@ fn worker(mode: &str, shard: usize, nshards: usize, seed: u64, tier: &str, out: 
         "C08uci" => m_uci::worker_c08uci(shard, nshards, seed, tier, out),
         "C12cmd" => m_uci::worker_c12cmd(shard, nshards, seed, tier, out),
         "C20show" => m_uci::worker_c20show(shard, nshards, seed, tier, out),
+        "C11cmd" => m_uci::worker_c11cmd(shard, nshards, seed, tier, out),
         "C13" => m_uci::worker_c13(shard, nshards, seed, tier, out),
         "C15" => m_mem::worker(shard, nshards, seed, tier, out),
         "C15bin" => m_membin::worker_bin(shard, nshards, seed, tier, out),
@@ -174,6 +180,7 @@ fn replay(prop: &str, case: &Value, out: &mut par::Out) {
         ("C06" | "C07" | "C10" | "C18", "session") => m_uci::replay_ucisample(prop, case, out),
         ("C08", "session") => m_uci::replay_session(prop, case, out),
         ("C20", "show") => m_uci::replay_c20show(case, out),
+        ("C11", "reimport") => m_uci::replay_c11cmd(case, out),
         (p, _) if WALK.contains(&p) || p == "C12" || p == "C20" => m_rules::replay(p, case, out),
         ("C03", _) => m_undo::replay(case, out),
         ("C06" | "C18", _) => m_search::replay_hist(prop, case, out),
@@ -211,6 +218,7 @@ fn run(prop: &str, tier: &str, seed: u64) -> i32 {
             let (chk, agg) = m_uci::run_c19(tier, seed);
             evid::finalize(chk, &agg)
         }
+        "C11" => partial("C11cmd", "exploration"),
         "C12" => partial("C12cmd", "exploration"),
         "C20" => partial("C20show", "exploration"),
         "C17" => partial("C17cmd", "exploration"),
@@ -230,6 +238,7 @@ fn worker(mode: &str, shard: usize, nshards: usize, seed: u64, tier: &str, out: 
         "C08uci" => m_uci::worker_c08uci(shard, nshards, seed, tier, out),
         "C12cmd" => m_uci::worker_c12cmd(shard, nshards, seed, tier, out),
         "C20show" => m_uci::worker_c20show(shard, nshards, seed, tier, out),
+        "C11cmd" => m_uci::worker_c11cmd(shard, nshards, seed, tier, out),
         "C13" => m_uci::worker_c13(shard, nshards, seed, tier, out),
         "C14" => m_uci::worker_c14(shard, nshards, seed, tier, out),
         "C19" => m_uci::worker_c19(shard, nshards, seed, tier, out),
@@ -258,6 +267,7 @@ fn replay(prop: &str, case: &Value, out: &mut par::Out) {
         ("C13", _) => m_uci::replay_c13(case, out),
         ("C19", _) => m_uci::replay_c19(case, out),
         ("C20", "show") => m_uci::replay_c20show(case, out),
+        ("C11", "reimport") => m_uci::replay_c11cmd(case, out),
         ("C07", "bulk-session") => m_uci::replay_c07_bulk(case, out),
         ("C06" | "C07" | "C10" | "C18", "session") => m_uci::replay_ucisample(prop, case, out),
         ("C08", "session") => m_uci::replay_session(prop, case, out),
